@@ -73,7 +73,7 @@ HISTORY = {
 }
 print('| seeded change (property it breaks) | what it does | what it needs to show | confirmed | checks run on it → result (current machinery) | history |')
 print('|---|---|---|---|---|---|')
-for d in sorted(glob.glob(os.path.join(ROOT, 'seeded', 'C*'))) + sorted(glob.glob(os.path.join(ROOT, 'seeded', 'R2-C*'))) + sorted(glob.glob(os.path.join(ROOT, 'seeded', 'R3-*'))) + sorted(glob.glob(os.path.join(ROOT, 'seeded', 'R4-*'))) + sorted(glob.glob(os.path.join(ROOT, 'seeded', 'R5-*'))) + sorted(glob.glob(os.path.join(ROOT, 'seeded', 'R6-*'))) + sorted(glob.glob(os.path.join(ROOT, 'seeded', 'R7-*'))):
+for d in sorted(glob.glob(os.path.join(ROOT, 'seeded', 'C*'))) + sorted(glob.glob(os.path.join(ROOT, 'seeded', 'R2-C*'))) + sorted(glob.glob(os.path.join(ROOT, 'seeded', 'R3-*'))) + sorted(glob.glob(os.path.join(ROOT, 'seeded', 'R4-*'))) + sorted(glob.glob(os.path.join(ROOT, 'seeded', 'R5-*'))) + sorted(glob.glob(os.path.join(ROOT, 'seeded', 'R6-*'))) + sorted(glob.glob(os.path.join(ROOT, 'seeded', 'R7-*'))) + sorted(glob.glob(os.path.join(ROOT, 'seeded', 'R8-*'))):
     sid = os.path.basename(d)
     try:
         meta = json.load(open(os.path.join(d, 'meta.json')))
